@@ -19,6 +19,7 @@ type FuncResult struct {
 	Assumed    []string
 	Inlined    []string
 	Err        string // OUT-OF-SUBSET or contract errors
+	Stale      []string // call sites named by the contract that no longer exist (reported as undecided; the other obligations are still checked)
 	Trusted    bool
 	NumInstrs  int
 	Candidates int // inferred loop-invariant obligations discharged (auxiliary)
@@ -362,7 +363,9 @@ func verifyFunctionCase(prog *Program, ctr *Contracts, key string, disabled map[
 				continue // "every call of f" holds vacuously when there is none
 			}
 			if !ex.usedAsserts[site] {
-				panic(oos("contract names call site %s, which does not exist (or is unreachable) in %s", site, key))
+				// not fatal: the obligations of the sites that do exist are still generated and checked, so a
+				// change that removes one call and thereby breaks another site's assertion is still reported
+				res.Stale = append(res.Stale, fmt.Sprintf("contract names call site %s, which does not exist (or is unreachable) in %s", site, key))
 			}
 		}
 	}
